@@ -72,7 +72,7 @@ func judgeObligations(m *Model, seqs map[seqKey][]*Attempt, sendResolvedOf func(
 				}
 				gk := rt.GroupKey(ls)
 				for idx := range rc.Integrations {
-					if !m.accepts(rt.Receiver, idx, t1.Add(-rt.GroupInterval), tau, slowSlack) {
+					if !m.accepts(rt.Receiver, idx, t1.Add(-rt.GroupInterval), tau, slowSlack) || m.longInFlight(gk, t1) {
 						continue
 					}
 					st.KnowledgeObligations++
@@ -158,7 +158,7 @@ func judgeObligations(m *Model, seqs map[seqKey][]*Attempt, sendResolvedOf func(
 			if end.After(tr.End) || !m.noDisruption(a.Flush, end) || stateLoss(a.Flush, end) {
 				continue
 			}
-			if !m.accepts(a.Receiver, a.Idx, a.Flush, end, slowSlack) {
+			if !m.accepts(a.Receiver, a.Idx, a.Flush, end, slowSlack) || m.longInFlight(a.GroupKey, a.Done) {
 				continue
 			}
 			unchanged := m.During(a.Flush, end, func(t time.Time) bool {
@@ -215,6 +215,14 @@ func judgeObligations(m *Model, seqs map[seqKey][]*Attempt, sendResolvedOf func(
 					}
 				}
 				for _, u := range cands {
+					// the options in force at u (a reload may have changed the timers; the routing structure persists)
+					rt := rt
+					if rtu, _ := m.GroupMembers(m.CfgAt(u), s[0].RouteID, k.GroupKey); rtu.ID != "" {
+						rt = rtu
+					}
+					if m.longInFlight(k.GroupKey, u) {
+						continue
+					}
 					end := u.Add(rt.GroupInterval + deliverySlack)
 					if end.After(tr.End) {
 						continue
@@ -229,10 +237,26 @@ func judgeObligations(m *Model, seqs map[seqKey][]*Attempt, sendResolvedOf func(
 					if !p.Done.Before(r) && !p.Flush.Before(r) {
 						continue
 					}
-					if stateLoss(p.Flush, end) || !m.noDisruption(p.Flush, end) || len(m.Reloads) > 0 && reloadIn(m, p.Flush, end) {
+					if stateLoss(p.Flush, end) || !m.started(p.Flush) {
 						continue
 					}
-					exp := 2 * rt.RepeatInterval
+					// a reload creates a new dispatcher that loads the provider's alerts: the resolved alert is still
+					// known to it iff the provider has not collected it by then; the obligation then counts from the reload
+					reloadOK, lastReload := true, time.Time{}
+					for _, rl := range m.Reloads {
+						if !rl.Before(p.Flush) && !rl.After(end) {
+							if rl.After(u) || m.Alerts.At(mk, rl) == nil {
+								reloadOK = false
+							}
+							lastReload = rl
+						}
+					}
+					if !reloadOK {
+						continue
+					}
+					_ = lastReload
+					// the entry was written with the repeat_interval in force at that delivery
+					exp := 2 * p.Repeat
 					if retention < exp {
 						exp = retention
 					}
@@ -549,6 +573,29 @@ func sortedCounts(m map[string]int) []string {
 func rolledBack(m *Model, t1, t2 time.Time) bool {
 	for _, r := range m.Restarts {
 		if r.Kind != "clean" && r.At.After(t1) && r.At.Before(t2) {
+			return true
+		}
+	}
+	return false
+}
+
+// started: t is not inside the dispatch start delay of the process incarnation running at t.
+func (m *Model) started(t time.Time) bool {
+	start := m.tr.Start
+	for _, r := range m.Restarts {
+		if !r.At.After(t) {
+			start = r.At
+		}
+	}
+	return !t.Before(start.Add(time.Duration(m.sc.Opts.StartDelay) * time.Second))
+}
+
+// longInFlight: some delivery attempt of the group is in flight at t and lasts longer than the slow slack (a
+// receiver that ignores cancellation keeps the group's flush, and with it the group's timer loop, busy).
+func (m *Model) longInFlight(groupKey string, t time.Time) bool {
+	for i := range m.tr.Attempts {
+		a := &m.tr.Attempts[i]
+		if a.GroupKey == groupKey && !a.T.After(t) && a.Done.After(t) && a.Done.Sub(a.T) > slowSlack {
 			return true
 		}
 	}
